@@ -1,14 +1,15 @@
 """C17 - the shared cache (leveldb/cache) never hands out a dead value and respects its capacity.
 
-1. spec/Cache.tla is model-checked (Cache_quick.cfg / Cache_thorough.cfg: the algorithm as coded, under the
-   environment assumption CloseExcl).  Cache_ascoded.cfg (no assumption) is EXPECTED to break FinalizeOnce - that
-   is the model-level picture of the defects listed in KNOWN_FINDINGS.json - and Cache_repaired.cfg (candidate
-   repair, no assumption) must hold.  None of these runs is a verdict about the code.
+1. spec/Cache.tla is model-checked (Cache_quick.cfg / Cache_thorough.cfg: the algorithm as coded, every interleaving
+   of Get/Release/Delete/Evict/EvictNS-All/SetCapacity/Close).  Cache_beforefix.cfg - the algorithm before fixes
+   e7aceb0 / 9182bd2 - is EXPECTED to break FinalizeOnce (so the model can see that family of defects), and
+   Cache_beforefix_excl.cfg (same, under the assumption that Close does not overlap Release) must hold.  None of
+   these runs is a verdict about the code.
 2. harness/cmd/cachechk drives the real cache.NewCache(cache.NewLRU(n)) under 2-16 goroutines and GOMAXPROCS
    1/2/4/16; every trace is validated by TLC against spec/CacheTrace.tla (monitor over the observable layer of
    Cache.tla).  A line the monitor cannot accept is a violation of C17 by the real code.
    Two groups of programs: "base" closes the cache alone or with only Handle.Release overlapping a non-force
-   Close; "hazard" lets Get/Release overlap Close(false) and Release overlap Close(true)."""
+   Close; "hazard" lets Get/Release overlap Close(false) and Release overlap Close(true) (the windows of F20/F21)."""
 import glob
 import json
 import os
@@ -26,14 +27,15 @@ ASSUME = ["TLC and the CommunityModules Json reader are trusted",
           "throw-away keys of the second namespace are checked by the driver's atomic counters, summarised in 'bulk' events",
           "schedules are those the Go runtime produces under random yields, 2-16 goroutines and GOMAXPROCS 1/2/4/16; the "
           "hash table and its resizing are exercised on the real code, not modelled",
-          "Cache.tla configurations that must hold assume CloseExcl (Close does not overlap an in-flight Handle.Release, "
-          "force Close runs alone); without it the as-coded model breaks clause 3 (Cache_ascoded.cfg), see KNOWN_FINDINGS"]
+          "Cache.tla abstracts the hash table to one node per key and all charges to 1; its bounds are 2 keys, 2 (quick) "
+          "or 3 (thorough) threads, one handle per thread, capacities {0,1}"]
 
 PROCS = [1, 2, 4, 16]
+GOROUTINES = [2, 16, 3, 8, 4, 12, 6]     # cycled against PROCS (coprime lengths: every pair occurs)
 TIERS = {
     "quick": dict(mc="Cache_quick.cfg", mc_timeout=600,
-                  base=(24, ["-epochs", "2", "-rounds", "3", "-ops", "3000"]),
-                  hazard=(16, ["-epochs", "24", "-rounds", "1", "-ops", "300", "-close", "soft-gets,force-race,soft-release"])),
+                  base=(32, ["-epochs", "2", "-rounds", "3", "-ops", "3000"]),
+                  hazard=(24, ["-epochs", "24", "-rounds", "1", "-ops", "300", "-close", "soft-gets,force-race,soft-release"])),
     "thorough": dict(mc="Cache_thorough.cfg", mc_timeout=1750,
                      base=(96, ["-epochs", "3", "-rounds", "4", "-ops", "4000"]),
                      hazard=(48, ["-epochs", "60", "-rounds", "1", "-ops", "300", "-close", "soft-gets,force-race,soft-release"])),
@@ -43,15 +45,15 @@ TIERS = {
 def design_runs(ctx, tier):
     res = {}
     res["main"] = tlc_mc(ctx, "Cache.tla", tier["mc"], timeout=tier["mc_timeout"],
-                         label="Cache as coded under CloseExcl (%s)" % tier["mc"])
-    r = tlc_mc(ctx, "Cache.tla", "Cache_ascoded.cfg", timeout=600, expect_violation=True,
-               label="Cache as coded, Close overlapping Release (expected to break FinalizeOnce)")
+                         label="Cache as coded, all interleavings (%s)" % tier["mc"])
+    r = tlc_mc(ctx, "Cache.tla", "Cache_beforefix.cfg", timeout=600, expect_violation=True,
+               label="Cache before fixes e7aceb0/9182bd2, Close overlapping Release (expected to break FinalizeOnce)")
     if not r["violated"] or "Invariant FinalizeOnce is violated" not in r["out"]:
-        raise HarnessError("Cache_ascoded.cfg no longer shows the FinalizeOnce counterexample; Cache.tla and "
-                           "KNOWN_FINDINGS disagree:\n%s" % r["out"][-1500:])
-    res["ascoded"] = r
-    res["repaired"] = tlc_mc(ctx, "Cache.tla", "Cache_repaired.cfg", timeout=600,
-                             label="Cache with RecheckClosed + AtomicFin (candidate repair), no assumption")
+        raise HarnessError("Cache_beforefix.cfg no longer shows the FinalizeOnce counterexample: the model lost its "
+                           "sensitivity to F20/F21:\n%s" % r["out"][-1500:])
+    res["beforefix"] = r
+    res["beforefix_excl"] = tlc_mc(ctx, "Cache.tla", "Cache_beforefix_excl.cfg", timeout=600,
+                                   label="Cache before the fixes under CloseExcl (Close never overlaps Release)")
     return res
 
 
@@ -132,14 +134,14 @@ def main(ctx):
     for group in ("base", "hazard"):
         n, args = tier[group]
         for i in range(n):
-            jobs.append((group, ctx.seed * 1000 + i, PROCS[i % len(PROCS)], args))
+            jobs.append((group, ctx.seed * 1000 + i, PROCS[i % len(PROCS)], GOROUTINES[i % len(GOROUTINES)], args))
 
     def drive(job):
         if job == "design":
             return design_runs(ctx, tier)
-        group, seed, procs, args = job
+        group, seed, procs, g, args = job
         out = ctx.path("%s-%d.ndjson" % (group, seed))
-        cmd = [exe, "-seed", str(seed), "-procs", str(procs), "-out", out] + args
+        cmd = [exe, "-seed", str(seed), "-procs", str(procs), "-g", str(g), "-out", out] + args
         s = run_driver(cmd, timeout=600)
         s.update(path=out, group=group, cmd=" ".join(cmd).replace(out, "<trace>"))
         s["fail"] = validate_one(ctx, s)
@@ -180,7 +182,7 @@ def main(ctx):
     for k, v in need.items():
         if counters[k] < v:
             raise HarnessError("drivers did not exercise the cache enough: %s = %s" % (k, counters[k]))
-    if counters["gomaxprocs_used"] != PROCS or counters["goroutines_range"][1] < 8:
+    if counters["gomaxprocs_used"] != PROCS or counters["goroutines_range"] != [2, 16]:
         raise HarnessError("drivers did not cover the GOMAXPROCS / goroutine range: %s" % counters)
     for v in ("force-alone", "soft-release", "soft-gets", "force-race"):
         if tot["closes"].get(v, 0) == 0:
@@ -190,7 +192,7 @@ def main(ctx):
     if sums:
         ok = [x for x in sums if x["fail"] is None] or sums
         ctx.samples.append({"program": ok[0]["cmd"], "first_events": ok[0].get("first", [])})
-    cov = mc_coverage(ctx, {"design_spec_as_coded_without_assumption": "FinalizeOnce violated (expected; KNOWN_FINDINGS)"})
+    cov = mc_coverage(ctx, {"design_spec_before_fixes": "Cache_beforefix.cfg breaks FinalizeOnce as expected (F20/F21)"})
     return finish(ctx, "model_checking", cov, ASSUME)
 
 
